@@ -98,4 +98,48 @@ PROPS = {
              gens.gen_C10,
              "exhaustive: interface oneway x method oneway x 17 return categories; 2-3 methods over {void,int,Par,Nope} x oneway "
              "with constants mixed in (3 methods sampled 25% in quick); oneway keyword after annotations/comments; random projects"),
+    "C15": P(["Model/Traverse.v", "Spec/Nodes.v", "Proofs/Traverse.v", "Properties/C15.v"], [],
+             lambda rng, tier: gens.gen_projects(rng, tier, 400, 6000),
+             "hand-picked + random projects (all item kinds, member mixes, types nested to depth 4), validated; for each file with a "
+             "tree: the three levels' visit sequences, filter/find for every symbol kind, every name (plus an absent one) and every "
+             "'k-th visited' predicate incl. one past the end; walk_types/walk_methods/walk_args",
+             runs=[("traverse", "T", ["corr_C15", "spec_C15"])],
+             assumptions=["the hand-written Coq model (Model/Traverse.v) corresponds to src/traverse.rs and src/symbol.rs: checked on every run, not proved",
+                          "FnMut visitor closures modelled as state-passing functions"]),
+    "C16": P(["Model/Traverse.v", "Spec/Nodes.v", "Proofs/Traverse.v", "Properties/C16.v"], [],
+             lambda rng, tier: gens.gen_projects(rng, tier, 250, 4000),
+             "hand-picked + random projects in all layouts (multi-line, CRLF, multi-byte text and Unicode whitespace before names); "
+             "for each file with a tree, find_symbol_at_line_col at every character position (plus one past each line end, a line "
+             "past the end and (0,0)) x the three levels",
+             runs=[("lookup", "L", ["corr_C16", "spec_C16"])],
+             assumptions=["model of traverse.rs tied to the code by the correspondence; line/column pairs are the library's own (C04 checks them)"]),
+    "C17": P(["Model/Traverse.v", "Spec/Nodes.v", "Proofs/Names.v", "Properties/C17.v"], [],
+             lambda rng, tier: gens.gen_projects(rng, tier, 400, 6000),
+             "hand-picked + random multi-file projects: every item kind x package depth x referencing position; names and qualified "
+             "names of every visited symbol (T lines), and for every reference resolved to an item the existence of a file whose item "
+             "symbol carries that key (V lines)",
+             runs=[("traverse", "T", ["spec_C17_names", "corr_C15"]), ("validate", "V", ["spec_C17_refs"])],
+             assumptions=["model of symbol.rs tied to the code by the correspondence"]),
+    "C11": P(["Proofs/Pipeline.v", "Proofs/Locality.v"] + MASTER + ["Properties/C11.v"], ["spec_C11_sorted", "corr_validate"],
+             gens.gen_C11,
+             "hand-picked (several diagnostics on one line, ambiguous imports, duplicate keys of different kinds, files without a "
+             "tree) + random projects, some squeezed onto one line / broken / with a duplicate key; each project validated twice, "
+             "rebuilt in up to 4 other insertion orders and in another thread (fresh hash seeds each time) and compared",
+             x_checks=["determinism", "keys"],
+             assumptions=ASSUME_VALID + ["separate threads and fresh parser instances are exercised by the harness; separate processes "
+                                         "are not modelled (the library has no global state: checked syntactically by lib/static_checks.py)"]),
+    "C12": P(["Model/ParserState.v", "Proofs/ParserState.v", "Properties/C12.v"], [],
+             gens.gen_C12,
+             "exhaustive operation sequences to length 2 (quick) / 3 (thorough) over {add(3 ids x 4 contents), remove(3 ids), validate, "
+             "add_file ok/missing/invalid UTF-8}, plus random histories of length 3-40 over generated projects; after EVERY step the "
+             "real parser's validate() is compared with a fresh parser holding the abstract map, and its key set with the model's",
+             runs=[("history", "H", ["corr_C12"])], x_checks=["history"],
+             assumptions=["Model/ParserState.v corresponds to src/parser.rs (checked on key sets per step); parse is a parameter of the theorems",
+                          "add_file exercised with real temporary files (existing, missing, invalid UTF-8)"]),
+    "C13": P(["Proofs/Locality.v"] + MASTER + ["Properties/C13.v"], ["corr_validate"],
+             gens.gen_C13,
+             "random projects; target = first file; perturbations of the rest: add an unrelated file, remove a non-imported file, "
+             "rewrite body/imports/docs of every other file keeping package, name and kind; the digest of the target's result "
+             "(tree + diagnostics incl. messages) must not change; kind changes of imported files are run as negative control and counted",
+             x_checks=["perturb"], post=gens.post_C13),
 }
